@@ -8,6 +8,9 @@ Driver for the overlay model and the plain-tree reference model (C01), run in lo
     patch                     commit_patch; create_patch          -> ok
     set P VAL | grp P | del P | sattr P K VAL | dattr P K | copy S D | move S D
                               -> "<overlay outcome> <plain-tree outcome>"   (ok | err)
+    setbad P TOK | sattrbad P K TOK
+                              set-dataset / set-attr with a value that the raw driver (h5py) refuses
+                              (`object()`, a dict, a ragged list, … — token `B<alnum>`)  -> "err err"
     dump                      canonical user-visible tree of the record
     sdump                     canonical plain tree
     raw                       per-container raw entries, newest first (diagnostic)
@@ -15,6 +18,14 @@ Driver for the overlay model and the plain-tree reference model (C01), run in lo
 
 Paths are hex-encoded absolute path strings (`/a/b`, root `/`), attribute keys hex-encoded,
 values opaque tokens from `[A-Za-z0-9:._+-]`. Keys: printable ASCII without `@`, `/`, not `.`.
+
+Refused values. The models are parametric in the value type `V` = the values the raw driver can
+store; a value that h5py itself refuses is not an element of `V`, so `Op V` has no constructor for
+such a call. By definition of the reference ("the tree that results from applying the user's
+SUCCESSFUL operations") such a call is an error without effect on the plain tree, whatever the state
+of the path, and the overlay must behave alike. The two lines `setbad` / `sattrbad` therefore do not
+go through `W.step` / `Spec.step`: both models answer `err` and keep their state. What is checked
+with them is the real code (both real sides must fail and keep their complete dump), not a theorem.
 -/
 open MetadorModel MetadorModel.Drv MetadorModel.Tree MetadorModel.Overlay
 
@@ -29,6 +40,11 @@ def keyOk (k : String) : Bool :=
 
 def valOk (v : String) : Bool :=
   !v.isEmpty && v.toList.all (fun c => c.isAlphanum || c == ':' || c == '.' || c == '_' || c == '+' || c == '-')
+
+/-- token of a refused value: `B` + alphanumerics (disjoint from nothing in particular: it never
+reaches a model) -/
+def badTok (v : String) : Bool :=
+  v.length ≥ 2 && v.front == 'B' && v.toList.all Char.isAlphanum
 
 def parsePath (h : String) : Option Path := do
   let s ← unhexStr h
@@ -95,6 +111,15 @@ def step (s : St) : List String → St × String
   | ["sattr", p, k, v] =>
     match parsePath p, parseKey k, valOk v with
     | some p, some k, true => both s (.sattr p k v)
+    | _, _, _ => (s, "bad-op")
+  | ["setbad", p, v] =>
+    -- refused value: outside `V`; error without effect on both models (see the header)
+    match parsePath p, badTok v with
+    | some _, true => (s, "err err")
+    | _, _ => (s, "bad-op")
+  | ["sattrbad", p, k, v] =>
+    match parsePath p, parseKey k, badTok v with
+    | some _, some _, true => (s, "err err")
     | _, _, _ => (s, "bad-op")
   | ["dattr", p, k] =>
     match parsePath p, parseKey k with
